@@ -329,6 +329,108 @@ theorem estPeers_disconnectAny (s : State) (p : Nat) (o a : List Nat) : estPeers
   rw [heq]
   simp only [estPeers_append, estPeers_closeMany, estPeers_abortMany, List.append_nil]
 
+/-! ## the race: a finished dial's report is processed after `Pool::disconnect(dp)` was commanded -/
+
+theorem resolveDial_est_super (s : State) (k p : Nat) (d : Bool) : ∀ e ∈ s.est, e ∈ (resolveDial s k p d).1.est := by
+  intro e he
+  unfold resolveDial
+  cases findPendOut s.pendOut k with
+  | none => exact he
+  | some pc =>
+    simp only [removePendOut]
+    cases checkPeerId pc.peer p s.localPeer with
+    | wrongPeerId => exact he
+    | localPeerId => exact he
+    | ok =>
+      cases d with
+      | true => exact he
+      | false => simp [establish]; exact Or.inl he
+
+theorem resolveDial_est_new (s : State) (k p : Nat) (d : Bool) :
+    ∀ e ∈ (resolveDial s k p d).1.est, e ∈ s.est ∨ (d = false ∧ e.peer = p) := by
+  intro e he
+  have he' : e ∈ (Swarm.step s (.resolve k p d)).1.est := he
+  rcases est_new s (.resolve k p d) e he' with h | ⟨k', h | h⟩
+  · exact Or.inl h
+  · simp only [Op.resolve.injEq] at h; exact Or.inr ⟨h.2.2, h.2.1.symm⟩
+  · cases h
+
+theorem estPeers_resolveDial (s : State) (k p : Nat) (d : Bool) (q : Nat)
+    (h : q ∈ estPeers (resolveDial s k p d).2) : d = false ∧ q = p := by
+  have h' : q ∈ estPeers (Swarm.step s (.resolve k p d)).2.2 := h
+  obtain ⟨k', hk | hk⟩ := estPeers_step s _ q h'
+  · simp only [Op.resolve.injEq] at hk; exact ⟨hk.2.2, hk.2.1.symm⟩
+  · cases hk
+
+theorem raceAny_eq (s : State) (k p : Nat) (d : Bool) (dp : Nat) (o a : List Nat) :
+    ∃ o' a', (∀ e ∈ s.est, e.peer = dp → e.id ∈ o') ∧
+      raceAny s k p d dp o a =
+        ((abortMany (closeMany (resolveDial s k p d).1 o').1 a').1,
+         (resolveDial s k p d).2 ++ (closeMany (resolveDial s k p d).1 o').2 ++
+           (abortMany (closeMany (resolveDial s k p d).1 o').1 a').2) := by
+  unfold raceAny
+  cases hd : race s k p d dp o a with
+  | some r =>
+    unfold race at hd
+    simp only at hd
+    split at hd
+    · rename_i hperm
+      simp only [Bool.and_eq_true] at hperm
+      refine ⟨o, a, ?_, ?_⟩
+      · intro e he hp
+        apply isPerm_mem hperm.1
+        exact List.mem_map.2 ⟨e, List.mem_filter.2 ⟨he, by simp [hp]⟩, rfl⟩
+      · simp only [Option.some.injEq] at hd
+        exact hd.symm
+    · cases hd
+  | none =>
+    refine ⟨_, _, ?_, rfl⟩
+    intro e he hp
+    exact List.mem_map.2 ⟨e, List.mem_filter.2 ⟨he, by simp [hp]⟩, rfl⟩
+
+theorem raceAny_est (s : State) (k p : Nat) (d : Bool) (dp : Nat) (o a : List Nat) :
+    ∀ e ∈ (raceAny s k p d dp o a).1.est, (e ∈ s.est ∧ e.peer ≠ dp) ∨ (d = false ∧ e.peer = p) := by
+  obtain ⟨o', a', hall, heq⟩ := raceAny_eq s k p d dp o a
+  rw [heq]
+  intro e he
+  simp only at he
+  rw [(abortMany_frame a' _).1, (closeMany_frame o' _).1] at he
+  obtain ⟨h1, h2⟩ := List.mem_filter.1 he
+  rcases resolveDial_est_new s k p d e h1 with h | h
+  · left
+    refine ⟨h, ?_⟩
+    intro hp
+    have := hall e h hp
+    simp [this] at h2
+  · exact Or.inr h
+
+theorem raceAny_closed (s : State) (k p : Nat) (d : Bool) (dp : Nat) (o a : List Nat) :
+    ∀ e ∈ s.est, e.peer = dp → e.id ∈ closedIds (raceAny s k p d dp o a).2 := by
+  obtain ⟨o', a', hall, heq⟩ := raceAny_eq s k p d dp o a
+  rw [heq]
+  intro e he hp
+  simp only [closedIds_append, List.mem_append]
+  exact Or.inl (Or.inr (closeMany_closed o' _ e.id (hall e he hp) ⟨e, resolveDial_est_super s k p d e he, rfl⟩))
+
+theorem estPeers_raceAny (s : State) (k p : Nat) (d : Bool) (dp : Nat) (o a : List Nat) (q : Nat)
+    (h : q ∈ estPeers (raceAny s k p d dp o a).2) : d = false ∧ q = p := by
+  obtain ⟨o', a', _, heq⟩ := raceAny_eq s k p d dp o a
+  rw [heq] at h
+  simp only [estPeers_append, estPeers_closeMany, estPeers_abortMany, List.append_nil] at h
+  exact estPeers_resolveDial s k p d q h
+
+theorem estPeers_filter_sub (l : List Ev) (f : Ev → Bool) (q : Nat) (h : q ∈ estPeers (l.filter f)) : q ∈ estPeers l := by
+  unfold estPeers at h ⊢
+  obtain ⟨e, he, hq⟩ := List.mem_filterMap.1 h
+  exact List.mem_filterMap.2 ⟨e, (List.mem_filter.1 he).1, hq⟩
+
+theorem closedIds_filter (l : List Ev) : closedIds (l.filter (fun e => !isListDecision e)) = closedIds l := by
+  induction l with
+  | nil => rfl
+  | cons e t ih =>
+    simp only [List.filter_cons]
+    cases e <;> simp [isListDecision, closedIds, List.filterMap_cons] <;> exact ih
+
 theorem mem_insertSorted (x y : Nat) (l : List Nat) : y ∈ insertSorted x l → y = x ∨ y ∈ l := by
   induction l with
   | nil => intro h; simp [insertSorted] at h; exact Or.inl h
